@@ -286,26 +286,40 @@ func (f *FSM) Close() error {
 	return f.db.Close()
 }
 
-func writeSnapshotMetaToDB(metadata *raft.SnapshotMeta, db *bolt.DB) error {
+// writeSnapshotMetaToDB records the index, term and configuration of a
+// snapshot in db. With onlyForward set, nothing is written (and false is
+// returned) if db already records a later index than the snapshot's.
+func writeSnapshotMetaToDB(metadata *raft.SnapshotMeta, db *bolt.DB, onlyForward bool) (bool, error) {
 	latestIndex := &IndexValue{
 		Term:  metadata.Term,
 		Index: metadata.Index,
 	}
 	indexBytes, err := proto.Marshal(latestIndex)
 	if err != nil {
-		return err
+		return false, err
 	}
 
 	protoConfig := raftConfigurationToProtoConfiguration(metadata.ConfigurationIndex, metadata.Configuration)
 	configBytes, err := proto.Marshal(protoConfig)
 	if err != nil {
-		return err
+		return false, err
 	}
 
+	written := false
 	err = db.Update(func(tx *bolt.Tx) error {
 		b, err := tx.CreateBucketIfNotExists(configBucketName)
 		if err != nil {
 			return err
+		}
+
+		if val := b.Get(latestIndexKey); onlyForward && val != nil {
+			var current IndexValue
+			if err := proto.Unmarshal(val, &current); err != nil {
+				return err
+			}
+			if metadata.Index < current.Index {
+				return nil
+			}
 		}
 
 		err = b.Put(latestConfigKey, configBytes)
@@ -318,13 +332,14 @@ func writeSnapshotMetaToDB(metadata *raft.SnapshotMeta, db *bolt.DB) error {
 			return err
 		}
 
+		written = true
 		return nil
 	})
 	if err != nil {
-		return err
+		return false, err
 	}
 
-	return nil
+	return written, nil
 }
 
 func (f *FSM) localNodeConfig() (*LocalNodeConfigValue, error) {
@@ -449,14 +464,26 @@ func (f *FSM) witnessSnapshot(metadata *raft.SnapshotMeta) error {
 	f.l.RLock()
 	defer f.l.RUnlock()
 
-	err := writeSnapshotMetaToDB(metadata, f.db)
+	// The snapshot describes the state at metadata.Index, but raft keeps
+	// applying batches while the snapshot is being persisted. Like ApplyBatch,
+	// only ever move the persisted and the in-memory index forwards: going
+	// back would let transactions start at (and be fast-applied against) an
+	// index whose later writes are already in storage.
+	advanced, err := writeSnapshotMetaToDB(metadata, f.db, true)
 	if err != nil {
 		return err
 	}
+	if !advanced {
+		return nil
+	}
 
-	f.latestIndex.Store(metadata.Index)
-	f.latestTerm.Store(metadata.Term)
-	f.latestConfig.Store(raftConfigurationToProtoConfiguration(metadata.ConfigurationIndex, metadata.Configuration))
+	for current := f.latestIndex.Load(); current <= metadata.Index; current = f.latestIndex.Load() {
+		if f.latestIndex.CompareAndSwap(current, metadata.Index) {
+			f.latestTerm.Store(metadata.Term)
+			f.latestConfig.Store(raftConfigurationToProtoConfiguration(metadata.ConfigurationIndex, metadata.Configuration))
+			break
+		}
+	}
 
 	return nil
 }
